@@ -27,8 +27,13 @@ Curv(Fv, k) == 2 * MaxI(MaxI(D2(Fv, k-1), D2(Fv, k)), MaxI(D2(Fv, k+1), D2(Fv, k
 Converted(Pv, Fv, p, r) == \E k \in 1..(Len(Pv)-1) : Brackets(Pv, p, k) /\ Between(r, Fv[k], Fv[k+1], Curv(Fv, k))
 \* converting the pressure field itself returns the requested pressures
 Identity(p, r) == Abs(p - r) <= 2
-\* V(T,P): P(T, V(T,P)) = P, i.e. V lies in the grid interval whose end-point pressures bracket P
-VolumeOK(Pv, Vv, p, r) == \E k \in 1..(Len(Pv)-1) : Brackets(Pv, p, k) /\ Between(r, Vv[k], Vv[k+1], 1)
+\* V(T,P): P(T, V(T,P)) = P, i.e. V lies in the grid interval whose end-point pressures bracket P.  The reported volume comes
+\* from a four-point interpolation of the isotherm, so close to a grid node it may leave the interval by the interpolation error;
+\* the allowance is the largest neighbouring THIRD difference of the grid volumes (far below the second-difference allowance
+\* of fields; zero for an equally spaced grid)
+D3(Fv, k) == IF k <= 1 \/ k + 2 > Len(Fv) THEN 0 ELSE Abs(Fv[k-1] - 3*Fv[k] + 3*Fv[k+1] - Fv[k+2])
+Curv3(Fv, k) == MaxI(MaxI(D3(Fv, k-1), D3(Fv, k)), MaxI(D3(Fv, k+1), D3(Fv, k+2))) + 1
+VolumeOK(Pv, Vv, p, r) == \E k \in 1..(Len(Pv)-1) : Brackets(Pv, p, k) /\ Between(r, Vv[k], Vv[k+1], Curv3(Vv, k))
 Decreasing(s) == \A j \in 1..(Len(s)-1) : s[j+1] < s[j]
 
 \* ---------------------------------------------------------------- Part 2
